@@ -50,6 +50,7 @@ import (
 	"example.com/scion-time/net/nts"
 	"example.com/scion-time/net/ntske"
 
+	"verifharness/cmd/c08nts/authx"
 	"verifharness/lib"
 )
 
@@ -703,6 +704,25 @@ func gen(c *lib.Ctx) {
 		b := r.Bytes(48 + r.Intn(200))
 		b[0] = base[0]
 		do("ntp-rand", "net.ntp "+hexs(b))
+	}
+	// boundary stream of the NTS authenticator field (harness/cmd/c08nts/authx): inner lengths whose
+	// sum wraps 2^16 or sits at the edges of the value / field / datagram, fields of length 4..7
+	// (shorter than their own two inner length fields) with bytes following; with and without a
+	// cookie field. Quick: the subset marked Live; thorough: all.
+	c.Comment("NTP listener: boundary stream of the NTS authenticator extension field")
+	{
+		var ck []byte
+		ck = append(ck, tlv(0x401, 2, []byte{0, 1})...)
+		ck = append(ck, tlv(0x501, 16, r.Bytes(16))...)
+		ck = append(ck, tlv(0x601, 88, r.Bytes(88))...)
+		for len(ck)%4 != 0 {
+			ck = append(ck, 0)
+		}
+		for _, a := range authx.Cases(base, ext(0x104, 36, r.Bytes(32)), ext(0x204, uint16(4+len(ck)), ck), r.Bytes) {
+			if a.Live || c.Thorough() {
+				do("ntp-auth", "net.ntp "+hexs(a.B))
+			}
+		}
 	}
 
 	// --- NTS requests with a genuine cookie, mutated
